@@ -46,7 +46,9 @@ func Dump(w io.Writer, r io.Reader) (err error) {
 func makeNumReader(r io.Reader) func() uint32 {
 	buf := make([]byte, 4)
 	return func() uint32 {
-		if _, err := r.Read(buf); err != nil {
+		// a single Read may return fewer than 4 bytes (bufio.Reader does at the
+		// end of its buffer); the number would be assembled from stale bytes
+		if _, err := io.ReadFull(r, buf); err != nil {
 			panic(err)
 		}
 		return binary.LittleEndian.Uint32(buf)
